@@ -4,6 +4,7 @@ policy `run` reaches `done`/`raised` within `mu (init) + 1` steps (no fuel param
 the bound is a function of the configuration).
 -/
 import Proofs.Earley
+import Proofs.EarleyCols
 namespace FV.Earley
 
 /-- `predict` reading the alternatives off the rule table itself, in table order -/
@@ -67,11 +68,6 @@ theorem sane_cfgOf (rules : List CRule) (v : Variant) (inp : Input) (start : Str
 theorem sane_mkCfg (G : Grammar) (v : Variant) (inp : Input) (start : String) (pred : Nat → NT → List (List ESym))
     (hpred : ∀ k x rhs, rhs ∈ pred k x → (x, rhs) ∈ compile G v.cap) : Sane (mkCfg G v inp start pred) :=
   ⟨hpred, fun t k e l h => scanV_mono v inp t k e l h⟩
-
-theorem colAt_replicate (n j : Nat) : colAt (List.replicate n ({} : Col)) j = {} := by
-  by_cases h : j < n
-  · rw [colAt_eq_getElem _ _ (by simpa using h)]; simp
-  · exact colAt_out _ _ (by simp; omega)
 
 theorem wfc_replicate (c : Cfg) : WfC c (List.replicate c.ncols {}) 0 where
   len := by simp
